@@ -136,8 +136,23 @@ def run(ctx):
             cycles.append([]); kind = "empty_cycle"
         cyc_off = [[x + offset for x in c] for c in cycles]
         fc_inputs.append((n, cyc_off, offset, kind))
+    import copy as _copy
     for n, cyc, offset, kind in fc_inputs:
         cases.append(f"({n}%nat, {czll(cyc)}, {cz(offset)}, {res_nl(lambda: pu.permutation_from_cycles(n, [list(c) for c in cyc], offset))})")
+        # a helper is a function of its arguments: the SAME cycle list object passed twice gives the same answer and is not modified
+        arg = [list(c) for c in cyc]
+        keep = _copy.deepcopy(arg)
+        outs = []
+        for _rep in range(2):
+            try:
+                outs.append(("ok", [int(v) for v in pu.permutation_from_cycles(n, arg, offset)]))
+            except Exception as ex:  # pylint: disable=broad-except
+                outs.append(("err", type(ex).__name__))
+        ctx.count("helper_argument_reuse_checked")
+        if arg != keep or outs[0] != outs[1]:
+            ctx.violation("property_fails", f"permutation_from_cycles({n}, cycles, offset={offset}) " + ("modified its cycles argument" if arg != keep else "")
+                          + f"; first call {str(outs[0])[:80]}, second call with the same list {str(outs[1])[:80]}",
+                          {"oracle": "from_cycles_reuse", "n": n, "cycles": cyc, "offset": offset}, True)
         ctx.case_seen(["from_cycles", n, cyc, offset], any(len(c) > 1 for c in cyc) or kind != "valid")
         ctx.count("from_cycles_" + kind)
     ctx.sample({"fn": "permutation_from_cycles", "n": fc_inputs[0][0], "cycles": fc_inputs[0][1], "offset": fc_inputs[0][2]})
